@@ -12,7 +12,7 @@ from .common import hexf, unhex
 
 class RunCase:
     def __init__(self, directed, assort, init, K, recs, L, lt="u", wt="u", r=1, maxit=10, nconv=10, seed=1,
-                 prior=0.0, tr=0, script=(), aff=None, vshape=0, lprior=0, ushape=0):
+                 prior=0.0, tr=0, script=(), aff=None, vshape=0, lprior=0, ushape=0, draws=()):
         self.__dict__.update(locals())
         del self.__dict__["self"]
         if aff is None:
@@ -21,7 +21,7 @@ class RunCase:
     def line(self, cid):
         return gen.case_run(cid, self.directed, self.assort, self.init, self.K, self.lt, self.recs, self.L,
                             self.wt, self.r, self.maxit, self.nconv, self.seed, self.prior, self.tr,
-                            self.script, self.aff, self.vshape, self.lprior, self.ushape)
+                            self.script, self.aff, self.vshape, self.lprior, self.ushape, self.draws)
 
     def net(self):
         return ref.PyNet(self.recs, self.L, self.directed, real=(self.wt == "r"))
@@ -34,7 +34,7 @@ class RunCase:
     def describe(self):
         return {"variant": self.variant(), "K": self.K, "L": self.L, "records": self.recs, "label_type": self.lt,
                 "weight_type": self.wt, "r": self.r, "max_it": self.maxit, "n_conv": self.nconv, "seed": self.seed,
-                "prior_fill": self.prior, "prior_v_shape": self.vshape, "prior_labels": self.lprior, "u_shape": self.ushape, "affinity": self.aff, "script": list(self.script)}
+                "prior_fill": self.prior, "prior_v_shape": self.vshape, "prior_labels": self.lprior, "u_shape": self.ushape, "scripted_draws": list(self.draws), "affinity": self.aff, "script": list(self.script)}
 
 
 def random_run(rng, tr=0, variants=None, **over):
